@@ -280,7 +280,7 @@ PROPS["C13"] = {
     "technique": "stateful property-based testing with injected send faults (fault sequence = generated input) and a byte-stream oracle at the peer",
     "rule": "case = optional small kernel send buffer, a fault script of 0..2*size entries (shapes: mixture, would-block phase then full, 1-byte partials, alternating, large partials), 3..size actions (write, suspend, resume, peer reads/writes, queries, leaving run(), and arming the next onWrite / onRead callback of a client to perform a write itself or to suspend the client). Nothing fails in these cases (no peer hangs up): a client that the server closes nevertheless is judged like every other - all accepted bytes have to arrive. Oracle: bytes handed to the kernel are a prefix of the accepted stream and the peer finally receives exactly the accepted bytes in order; 'postponed' and getSendBufferSize() equal accepted minus handed; onWrite exactly once per drain and never with backlog; no onRead between suspend() and resume(); ASan. "
             "Non-trivial = a partial send or would-block left a backlog, a further write happened while the backlog was non-empty, and the backlog drained (onWrite); distinct by case text hash.",
-    "assumptions": ["Client::write gets size >= 1", "the peer of a pair()ed client is a local stream socket", "data and acknowledgements of the loopback TCP connection arrive within 2 s of real time (the drain phase waits for them in real time, the loop itself runs in virtual time)"],
+    "assumptions": ["Client::write gets size >= 1, or size 0 while a backlog exists (without a backlog a zero-byte send cannot be told from a closed connection)", "the peer of a pair()ed client is a local stream socket", "data and acknowledgements of the loopback TCP connection arrive within 2 s of real time (the drain phase waits for them in real time, the loop itself runs in virtual time)"],
     "parts": [opf("server", ["harness/c13_server.cpp"], {"cases": 250000, "maxsize": 40}, {"cases": 5000000, "maxsize": 100, "workers": 16}, ldflags=SRV_WRAPS, deps=["harness/srv_common.hpp"]),
               rel(opf("server", ["harness/c13_server.cpp"], {"cases": 250000, "maxsize": 40}, {"cases": 5000000, "maxsize": 100, "workers": 16}, ldflags=SRV_WRAPS, deps=["harness/srv_common.hpp"], bin="C13_server"))],
 }
